@@ -10,11 +10,11 @@
        sanitizer forces (rel, target, crossorigin, sandbox), or is an attribute justified as above and
        unchanged, or is such an attribute on which the URL pass ran, with the value validURL returned
        (so value patterns were judged on the decoded input value, before re-serialisation);
-     - for the BYTES of the output (C02_output_tokens), for every policy that keeps no comments and
+     - for the BYTES of the output (C02_output_tokens), for every policy without AllowUnsafe that
        allows no raw-text element: every attribute of every tag a tokenizer reads from the output
        has that provenance with respect to a tag of the input, and a tag is bare only if the
        element is allowed without attributes.
-   Missing: the byte-level statement for policies that keep comments or raw-text elements;
+   Missing: the byte-level statement for policies that allow raw-text elements;
    covered by the attrs correspondence and the oracle. *)
 From Coq Require Import List NArith Bool.
 Import ListNotations.
